@@ -4,6 +4,11 @@
 package afpacket
 
 import (
+	"io"
+	"sync"
+	"syscall"
+	"time"
+
 	"github.com/google/gopacket"
 	afp "github.com/google/gopacket/afpacket"
 	"github.com/google/gopacket/layers"
@@ -12,9 +17,19 @@ import (
 	"golang.org/x/net/bpf"
 )
 
+// pollTimeout bounds the time a read waits in poll(2),
+// so that a reader notices that the source was closed
+const pollTimeout = 100 * time.Millisecond
+
 type Source struct {
 	handle   *afp.TPacket
 	linkType layers.LinkType
+	// Close unmaps the ring buffer, so it must not run while a read
+	// is in flight: in that case the reader closes the handle itself
+	// as soon as its read returns
+	mu      sync.Mutex
+	reading bool
+	closed  bool
 	// filter is the attached BPF program, applied again in user space:
 	// the socket queues every frame the interface sees from the moment
 	// it is created until the kernel filter is attached
@@ -25,7 +40,8 @@ type Source struct {
 var _ packet.ReadWriter = (*Source)(nil)
 
 func NewPacketSource(iface string, vpnMode bool) (*Source, error) {
-	handle, err := afp.NewTPacket(afp.SocketRaw, afp.OptInterface(iface))
+	handle, err := afp.NewTPacket(afp.SocketRaw, afp.OptInterface(iface),
+		afp.OptPollTimeout(pollTimeout))
 	if err != nil {
 		return nil, err
 	}
@@ -65,12 +81,47 @@ func (s *Source) SetBPFFilter(bpfFilter string, maxPacketLength int) error {
 }
 
 func (s *Source) Close() {
-	s.handle.Close()
+	s.mu.Lock()
+	defer s.mu.Unlock()
+	if s.closed {
+		return
+	}
+	s.closed = true
+	if !s.reading {
+		s.handle.Close()
+	}
+}
+
+// read reads one frame or returns afp.ErrTimeout after pollTimeout.
+// The frame is copied since the ring buffer is unmapped on Close.
+func (s *Source) read() ([]byte, gopacket.CaptureInfo, error) {
+	s.mu.Lock()
+	if s.closed {
+		s.mu.Unlock()
+		return nil, gopacket.CaptureInfo{}, io.EOF
+	}
+	s.reading = true
+	s.mu.Unlock()
+
+	data, ci, err := s.handle.ReadPacketData()
+
+	s.mu.Lock()
+	defer s.mu.Unlock()
+	s.reading = false
+	if s.closed {
+		s.handle.Close()
+		return nil, gopacket.CaptureInfo{}, io.EOF
+	}
+	return data, ci, err
 }
 
 func (s *Source) ReadPacketData() ([]byte, *gopacket.CaptureInfo, error) {
 	for {
-		data, ci, err := s.handle.ZeroCopyReadPacketData()
+		data, ci, err := s.read()
+		if err == afp.ErrTimeout {
+			// no frame yet: a temporary error lets the caller check for cancellation
+			return nil, nil, syscall.EAGAIN
+		}
 		if err == nil && s.filter != nil {
 			// skip frames that were queued before the filter was attached
 			if n, vmErr := s.filter.Run(data); vmErr == nil && n == 0 {
